@@ -901,6 +901,16 @@ class Machine:
         if isinstance(e, ast.Dict):
             return {"__dict__": True}
         if isinstance(e, ast.IfExp):
+            t = e.test
+            if isinstance(t, ast.Compare) and len(t.ops) == 1 and isinstance(t.ops[0], (ast.Lt, ast.LtE, ast.Gt, ast.GtE)):
+                # `a if a < b else b` (and its mirrored forms) is min(a, b): a clamp of a bucket index
+                l, r, bd, orl = (ast.unparse(x) for x in (t.left, t.comparators[0], e.body, e.orelse))
+                if {l, r} == {bd, orl} and l != r:
+                    picks_smaller = (bd == l) == isinstance(t.ops[0], (ast.Lt, ast.LtE))
+                    va, vb = self.eval(e.body, env, f), self.eval(e.orelse, env, f)
+                    for x, y in ((va, vb), (vb, va)):
+                        if picks_smaller and isinstance(x, Key) and isinstance(y, (Num, Param, Opaque)):
+                            return Key(x.kind, x.base, clamped=True)
             c = self.decide(self.truth(self.eval(e.test, env, f)), why=f"line {e.lineno}: {ast.unparse(e.test)[:50]}")
             return self.eval(e.body if c else e.orelse, env, f)
         if isinstance(e, (ast.ListComp, ast.GeneratorExp)):
@@ -1031,6 +1041,10 @@ class Machine:
                 return ("arrmethod", base, a)
             if a == "dtype":
                 return Opaque("dtype")
+            if a == "ndim":
+                return Num(1)       # the model's batches are one-dimensional (len(shape) == 1, as `shape` above)
+            if a == "size":
+                return Opaque("n")
         if isinstance(base, DictSlot):
             if a in ("get", "items", "values", "keys"):
                 return ("dictmethod", base, a)
